@@ -1,276 +1,961 @@
-"""C01 Clustering results are self-consistent (structural clauses D1-D5)."""
-import ast
+"""C01 Clustering results are self-consistent (structural clauses D1-D5).
 
-from ..core import (AnalysisIncomplete, call_name, is_call_to, kwarg,
-                    names_loaded, params, target_names, u, walk_expr,
-                    walk_local)
-from ..patterns import (assigns_to, calls_in, check_no_arg_mutation, finfo,
-                        returns_of, subscript_stores, mask_atoms, mask_keys,
-                        eval_mask, shared)
-from .cluster_common import (KC, KM, HY, CU, check_running_min_commit)
+The constructs are located by ROLE (parameter position, what is returned,
+what is passed as which ClusterResult field, which array receives the store)
+and compared after expansion of temporaries, so that renamed or extracted
+temporaries, flipped comparisons and reordered independent statements do not
+matter.  An unrecognised shape is ANALYSIS-INCOMPLETE (ck.missing), only a
+recognised construct with different content is a VIOLATION."""
+import ast
+import itertools
+
+from ..core import (AnalysisIncomplete, arg_or_kw, call_name, const_value,
+                    is_call_to, kwarg, names_loaded, param_default, params,
+                    target_names, u, walk_expr, walk_local)
+from ..match import canon, classify, match
+from ..patterns import (assigns_to, calls_in, check_no_arg_mutation,
+                        conjuncts, finfo, returns_of, subscript_stores,
+                        mask_atoms, mask_keys, eval_mask, shared)
+from .cluster_common import (KC, KM, HY, CU, check_running_min_commit,
+                             find_running_min_commits)
+
+AP = 'enspara/apps/cluster.py'
 
 EXPLANATION = (
     'Static decision of the structural necessary conditions of C01: '
     '(D1) centre coordinates and centre index advance in lock-step from one '
-    'definition; (D2) the running-minimum commit writes distances and labels '
-    'under one strict mask with the label taken before the append; (D3) the '
-    'three PAM reassignment masks are exhaustive over their two atoms and each '
-    'writes labels and distances from paired sources; (D4) ClusterResult '
-    'fields/roles agree at every construction and unpacking site; (D5) no '
-    'store reaches a caller-owned argument of the clustering entry points '
-    '(whole-package alias/effects fixed point). Numerical equality of reported '
-    'and recomputed distances is NOT decided.')
+    'definition (k-centers iteration, its MPI sibling, the k-centers driver '
+    'incl. the warm start whose index list must be the per-label '
+    'find_cluster_centers of the sweep over the same centre list, PAM accept '
+    'branch); (D2) the running-minimum commit writes distances and labels '
+    'under one strict mask with the label taken before the append, and the '
+    'triangle-inequality shortcut that replaces candidate distances by a copy '
+    'of the current ones is opt-in (default off on every in-package path); '
+    '(D3) the three PAM reassignment masks are exhaustive and disjoint over '
+    'their two atoms and each writes labels and distances from paired '
+    'sources; (D4) ClusterResult fields/roles agree at every construction and '
+    'unpacking site; (D5) no store reaches a caller-owned argument of the '
+    'clustering entry points (whole-package alias/effects fixed point). '
+    'Numerical equality of reported and recomputed distances is NOT decided.')
 
+
+# ---------------------------------------------------------------------------
+# small role helpers
+
+def _last(cn):
+    return (cn or '').split('.')[-1]
+
+
+def _strip_int(e):
+    """int(x) / np.int64(x) wrappers do not change which frame is meant."""
+    while isinstance(e, ast.Call) and len(e.args) == 1 and not e.keywords and \
+            _last(call_name(e)) in ('int', 'int64', 'intp', 'int32'):
+        e = e.args[0]
+    return e
+
+
+def _ret_tuples(fi, fn, arity):
+    """[(return stmt, elts | None)]: the returned tuple, seen through a
+    returned temporary."""
+    out = []
+    for r in returns_of(fn):
+        v = r.value
+        if isinstance(v, ast.Name):
+            v = fi.resolve(v)
+        if isinstance(v, ast.Tuple):
+            out.append((r, list(v.elts) if len(v.elts) == arity else ()))
+        else:
+            out.append((r, None))
+    return out
+
+
+def _callee_names(fi, call, depth=4):
+    """Names of the functions a call may invoke: the attribute name, the
+    global name, or - for a local alias `f = g if c else h` / branch-wise
+    `f = g` - every function the alias may denote."""
+    def names_of(e, d):
+        if isinstance(e, ast.Attribute):
+            return {e.attr}
+        if isinstance(e, ast.IfExp):
+            return names_of(e.body, d) | names_of(e.orelse, d)
+        if isinstance(e, ast.Name):
+            try:
+                defs = fi.defs_of_use(e)
+            except Exception:
+                defs = set()
+            sites = [s for s in defs if s not in ('PARAM', 'UNBOUND')]
+            if not sites or d <= 0:
+                return {e.id}
+            out = set()
+            for s in sites:
+                v = fi.def_value(s, e.id)
+                out |= names_of(v, d - 1) if v is not None else {'?'}
+            return out
+        return {'?'}
+    return names_of(call.func, depth)
+
+
+def _appends_to(root, name):
+    return [c for c in calls_in(root, '.append')
+            if isinstance(c.func.value, ast.Name) and c.func.value.id == name]
+
+
+def _enclosing(mod, node, kinds, stop=None):
+    n = mod.parent.get(node)
+    while n is not None and n is not stop and not isinstance(n, kinds):
+        n = mod.parent.get(n)
+    return n if isinstance(n, kinds) else None
+
+
+def _df_args(call):
+    """(data, world_index, owner_rank) of a distribute_frame call."""
+    return (arg_or_kw(call, 0, 'data'), arg_or_kw(call, 1, 'world_index'),
+            arg_or_kw(call, 2, 'owner_rank'))
+
+
+def _is_empty_list(e):
+    return (isinstance(e, ast.List) and not e.elts) or (
+        isinstance(e, ast.Call) and call_name(e) == 'list' and not e.args and not e.keywords)
+
+
+def _same_def(fi, a, b):
+    """Two Name loads of the same variable that denote the same value."""
+    return isinstance(a, ast.Name) and isinstance(b, ast.Name) and fi.same_value(a, b)
+
+
+def _result_kw_names(fn, field):
+    """Names passed as ClusterResult(<field>=...) inside fn."""
+    out = []
+    for c in calls_in(fn):
+        if _last(call_name(c)) == 'ClusterResult':
+            v = kwarg(c, field)
+            if isinstance(v, ast.Name) and v.id not in out:
+                out.append(v.id)
+    return out
+
+
+# ---------------------------------------------------------------------------
+# D1
 
 def d1_lockstep(ck):
     mod = ck.repo.mod(KC)
-    fn = mod.func('_kcenters_iteration')
-    fi = finfo(mod, fn)
-    ck.analysed(mod, fn)
     rule = 'C01.D1.lockstep'
-    rets = returns_of(fn)
-    if not rets:
-        ck.missing(rule, 'no return in _kcenters_iteration')
-        return
     n = 0
-    for r in rets:
-        if not (isinstance(r.value, ast.Tuple) and len(r.value.elts) == 4):
-            ck.bad(rule, mod, r, '_kcenters_iteration', u(r),
-                   'iteration must return (new_center, distances, assignments, center_inds)')
-            continue
-        ctr = r.value.elts[0]
-        cexpr = fi.resolve(ctr)
-        # new centre is traj[i]
-        if not (isinstance(cexpr, ast.Subscript) and isinstance(cexpr.value, ast.Name)
-                and cexpr.value.id == params(fn)[0] and isinstance(cexpr.slice, ast.Name)):
-            ck.bad(rule, mod, r, '_kcenters_iteration', u(cexpr),
-                   'the returned centre must be `traj[<index>]` for the data '
-                   'parameter and a single index variable')
-            continue
-        idx_use = cexpr.slice
-        # append to center_inds uses same definition of idx
-        lst = r.value.elts[3]
-        appends = [c for c in calls_in(fn, '.append')
-                   if u(c.func.value) == u(lst)]
-        if len(appends) != 1:
-            ck.bad(rule, mod, r, '_kcenters_iteration', 'append to %s' % u(lst),
-                   'expected exactly one append of the new centre index, found %d' % len(appends))
-            continue
-        a = appends[0]
-        arg = a.args[0] if a.args else None
-        ok = isinstance(arg, ast.Name) and fi.same_value(arg, idx_use)
-        n += 1
-        ck.check(ok, rule, mod, a, '_kcenters_iteration',
-                 '%s  <->  %s' % (u(cexpr), u(a)),
-                 'centre coordinates and appended index come from the same definition of `%s`' % idx_use.id,
-                 'the index appended to the centre list is not the same value '
-                 'that selected the returned centre frame (stale or recomputed index)')
-    # MPI sibling: (owner, index) appended == distribute_frame(owner_rank=, world_index=)
-    fn2 = mod.func('_kcenters_iteration_mpi')
-    fi2 = finfo(mod, fn2)
-    ck.analysed(mod, fn2)
-    dfs = calls_in(fn2, 'mpi.ops.distribute_frame')
-    apps = [c for c in calls_in(fn2, '.append') if u(c.func.value) == 'center_inds']
-    if len(dfs) != 1 or len(apps) != 1:
-        ck.missing(rule, '_kcenters_iteration_mpi: distribute_frame/append not found uniquely')
-    else:
-        df, ap = dfs[0], apps[0]
-        owner = kwarg(df, 'owner_rank') or (df.args[2] if len(df.args) > 2 else None)
-        windex = kwarg(df, 'world_index') or (df.args[1] if len(df.args) > 1 else None)
-        pair = ap.args[0] if ap.args else None
-        ok = isinstance(pair, ast.Tuple) and len(pair.elts) == 2 and \
-            isinstance(owner, ast.Name) and isinstance(windex, ast.Name) and \
-            isinstance(pair.elts[0], ast.Name) and isinstance(pair.elts[1], ast.Name) and \
-            fi2.same_value(pair.elts[0], owner) and fi2.same_value(pair.elts[1], windex)
-        n += 1
-        ck.check(ok, rule, mod, ap, '_kcenters_iteration_mpi',
-                 '%s  <->  %s' % (u(df), u(ap)),
-                 'appended (owner, index) pair equals the broadcast frame address',
-                 'the pair appended to the centre list must be (owner_rank, '
-                 'world_index) of the frame that was distributed, in that order')
-    # kcenters(): centers.append(new_center) where new_center is element 0 of iteration result
-    fnk = mod.func('kcenters')
-    ck.analysed(mod, fnk)
-    fik = finfo(mod, fnk)
-    loops = [w for w in walk_local(fnk) if isinstance(w, ast.While)]
-    for w in loops:
-        unpack = [s for s in walk_local(w) if isinstance(s, ast.Assign)
-                  and isinstance(s.targets[0], ast.Tuple)
-                  and isinstance(s.value, ast.Call) and u(s.value.func) == 'iteration']
-        for s in unpack:
-            t0 = s.targets[0].elts[0]
-            apps = [c for c in calls_in(w, '.append') if c.args and isinstance(
-                c.args[0], ast.Name) and isinstance(t0, ast.Name) and c.args[0].id == t0.id]
-            n += 1
-            ck.check(len(apps) == 1 and u(apps[0].func.value) == 'centers',
-                     rule, mod, s, 'kcenters', u(s)[:120],
-                     'the centre returned by the iteration is appended to `centers` once per trip',
-                     'the new centre returned by the iteration must be appended to the '
-                     'centre-coordinate list exactly once per trip')
-    # PAM: new_medoids[cid] = proposed_center ; medoid_inds[cid] = proposed_center_ind
-    modm = ck.repo.mod(KM)
-    fnp = modm.func('_kmedoids_pam_update')
-    fip = finfo(modm, fnp)
-    ck.analysed(modm, fnp)
-    coord_st = [(s, t) for s, t in subscript_stores(fnp, 'new_medoids')]
-    ind_st = [(s, t) for s, t in subscript_stores(fnp, 'medoid_inds')]
-    if len(coord_st) != 1 or len(ind_st) != 1:
-        ck.missing(rule, 'PAM update: stores new_medoids[cid]/medoid_inds[cid] not found uniquely')
-    else:
-        (cs, ct), (is_, it) = coord_st[0], ind_st[0]
-        same_cid = u(ct.slice) == u(it.slice)
-        # proposed_center / proposed_center_ind defined pairwise
-        pair_ok = _proposal_pair_ok(modm, fnp, fip, cs.value, is_.value)
-        n += 1
-        ck.check(same_cid and pair_ok[0], rule, modm, is_, '_kmedoids_pam_update',
-                 '%s  <->  %s' % (u(cs), u(is_)),
-                 'candidate coordinates and candidate index are paired on every path (%s)' % pair_ok[1],
-                 'candidate centre coordinates and its index are not a pair: %s' % pair_ok[1])
+    n += _lockstep_iteration(ck, rule, mod)
+    n += _lockstep_iteration_mpi(ck, rule, mod)
+    n += _lockstep_driver(ck, rule, mod)
+    n += _lockstep_pam(ck, rule, ck.repo.mod(KM))
     ck.floor(rule, n, 4, 'lock-step sites')
 
 
-def _proposal_pair_ok(mod, fn, fi, coord_expr, ind_expr):
+def _lockstep_iteration(ck, rule, mod):
+    F = '_kcenters_iteration'
+    fn = mod.func(F)
+    fi = finfo(mod, fn)
+    ck.analysed(mod, fn)
+    rets = _ret_tuples(fi, fn, 4)
+    if not rets:
+        ck.missing(rule, 'no return in _kcenters_iteration')
+        return 0
+    n = 0
+    data = params(fn)[0]
+    for r, elts in rets:
+        if elts is None:
+            ck.missing(rule, '%s: returned value is not a tuple display: %s' % (F, u(r)[:80]))
+            continue
+        if not elts:
+            ck.bad(rule, mod, r, F, u(r),
+                   'iteration must return (new_center, distances, assignments, center_inds)')
+            continue
+        cexpr = fi.resolve(elts[0])
+        lst = elts[3]
+        if not isinstance(lst, ast.Name):
+            ck.missing(rule, '%s: returned centre-index list is not a plain name: %s' % (F, u(lst)[:60]))
+            continue
+        if not (isinstance(cexpr, ast.Subscript) and isinstance(cexpr.value, ast.Name)
+                and cexpr.value.id == data):
+            v = classify(cexpr, ['%s[_I]' % data], scope={data})
+            ck.decide(v if v[0] != 'match' else 'far', rule, mod, r, F, u(cexpr),
+                      '', 'the returned centre must be `%s[<index>]`: a frame of the data '
+                      'parameter selected by the index that is appended to the centre list' % data)
+            continue
+        appends = _appends_to(fn, lst.id)
+        if not appends:
+            ck.missing(rule, '%s: no `%s.append(<index>)` found (list extended in an '
+                       'unrecognised way)' % (F, lst.id))
+            continue
+        if len(appends) != 1:
+            ck.bad(rule, mod, r, F, 'append to %s' % lst.id,
+                   'expected exactly one append of the new centre index per iteration, found %d' % len(appends))
+            continue
+        a = appends[0]
+        arg = _strip_int(a.args[0]) if a.args else None
+        idx_use = _strip_int(cexpr.slice)
+        n += 1
+        construct = '%s  <->  %s' % (u(cexpr), u(a))
+        bad_detail = ('the index appended to the centre list is not the same value '
+                      'that selected the returned centre frame (stale or recomputed index)')
+        if isinstance(arg, ast.Name) and isinstance(idx_use, ast.Name):
+            ck.check(fi.same_value(arg, idx_use), rule, mod, a, F, construct,
+                     'centre coordinates and appended index come from the same definition of `%s`' % idx_use.id,
+                     bad_detail)
+        elif isinstance(arg, ast.Name):
+            # frame selected by an expression: is it a different function of the appended index?
+            v = classify(fi.expand(idx_use), [arg.id], scope={arg.id})
+            ck.decide(v, rule, mod, a, F, construct, 'frame index is the appended index', bad_detail)
+        elif arg is not None and fi.xu(arg) == fi.xu(idx_use) and not isinstance(arg, ast.Call):
+            ck.ok(rule, mod, a, construct, 'same index expression')
+        else:
+            ck.missing(rule, '%s: cannot relate appended index `%s` to frame index `%s`' % (
+                F, u(arg)[:60], u(idx_use)[:60]))
+    return n
+
+
+def _lockstep_iteration_mpi(ck, rule, mod):
+    """(owner, index) appended == distribute_frame(owner_rank=, world_index=)."""
+    F = '_kcenters_iteration_mpi'
+    fn = mod.func(F)
+    fi = finfo(mod, fn)
+    ck.analysed(mod, fn)
+    lst = None
+    for r, elts in _ret_tuples(fi, fn, 4):
+        if elts and isinstance(elts[3], ast.Name):
+            lst = elts[3].id
+    if lst is None:
+        ck.missing(rule, '%s: returned centre-index list not found' % F)
+        return 0
+    dfs = [c for c in calls_in(fn) if _last(call_name(c)) == 'distribute_frame']
+    apps = _appends_to(fn, lst)
+    if len(dfs) != 1 or len(apps) != 1:
+        ck.missing(rule, '_kcenters_iteration_mpi: distribute_frame/append not found uniquely')
+        return 0
+    df, ap = dfs[0], apps[0]
+    _, windex, owner = _df_args(df)
+    pair = ap.args[0] if ap.args else None
+    if isinstance(pair, ast.Name):
+        pair = fi.resolve(pair)
+    construct = '%s  <->  %s' % (u(df), u(ap))
+    if not (isinstance(pair, ast.Tuple) and len(pair.elts) == 2) or owner is None or windex is None:
+        ck.missing(rule, '%s: appended value is not an (owner, index) pair display: %s' % (F, u(ap)[:80]))
+        return 0
+    p0, p1 = _strip_int(pair.elts[0]), _strip_int(pair.elts[1])
+    owner, windex = _strip_int(owner), _strip_int(windex)
+    if not all(isinstance(x, ast.Name) for x in (p0, p1, owner, windex)):
+        same = fi.xu(p0) == fi.xu(owner) and fi.xu(p1) == fi.xu(windex)
+        swapped = fi.xu(p0) == fi.xu(windex) and fi.xu(p1) == fi.xu(owner)
+        if same and not any(isinstance(x, ast.Call) for x in (p0, p1)):
+            ck.ok(rule, mod, ap, construct, 'appended pair equals the broadcast frame address')
+            return 1
+        if swapped and not same:
+            ck.bad(rule, mod, ap, F, construct, 'the pair appended to the centre list must be '
+                   '(owner_rank, world_index) of the frame that was distributed, in that order')
+            return 1
+        ck.missing(rule, '%s: frame address operands are not plain names: %s' % (F, construct[:120]))
+        return 0
+    ok = fi.same_value(p0, owner) and fi.same_value(p1, windex)
+    ck.check(ok, rule, mod, ap, F, construct,
+             'appended (owner, index) pair equals the broadcast frame address',
+             'the pair appended to the centre list must be (owner_rank, '
+             'world_index) of the frame that was distributed, in that order')
+    return 1
+
+
+def _lockstep_driver(ck, rule, mod):
+    """kcenters(): the centre returned by the iteration (element 0 of its
+    result) is appended to the centre-coordinate list once per trip."""
+    F = 'kcenters'
+    fn = mod.func(F)
+    ck.analysed(mod, fn)
+    fi = finfo(mod, fn)
+    cls = _result_kw_names(fn, 'centers')
+    if len(cls) != 1:
+        ck.missing(rule, 'kcenters: the list passed as ClusterResult(centers=...) not found uniquely')
+        return 0
+    CL = cls[0]
+    its = [c for c in calls_in(fn)
+           if _callee_names(fi, c) & {'_kcenters_iteration', '_kcenters_iteration_mpi'}]
+    n = 0
+    for c in its:
+        st = fi.stmt(c)
+        unpack = None
+        if isinstance(st, ast.Assign) and st.value is c and len(st.targets) == 1:
+            t = st.targets[0]
+            if isinstance(t, ast.Tuple):
+                unpack = st
+            elif isinstance(t, ast.Name):
+                for s in walk_local(fn):
+                    if isinstance(s, ast.Assign) and isinstance(s.targets[0], ast.Tuple) \
+                            and isinstance(s.value, ast.Name) and s.value.id == t.id \
+                            and fi.defs_of_use(s.value) == {st}:
+                        unpack = s
+        if unpack is None or len(unpack.targets[0].elts) != 4 or \
+                not isinstance(unpack.targets[0].elts[0], ast.Name):
+            ck.missing(rule, 'kcenters: result of the iteration call is not unpacked into 4 names: %s' % u(st)[:100])
+            continue
+        t0 = unpack.targets[0].elts[0]
+        loop = _enclosing(mod, unpack, (ast.While, ast.For), stop=fn)
+        if loop is None:
+            ck.missing(rule, 'kcenters: iteration call is not inside a loop')
+            continue
+        apps = _appends_to(loop, CL)
+        n += 1
+        if not apps:
+            touched = [s for s in assigns_to(loop, CL)] + [
+                x for x in walk_local(loop) if isinstance(x, ast.Call) and isinstance(x.func, ast.Attribute)
+                and isinstance(x.func.value, ast.Name) and x.func.value.id == CL]
+            if touched:
+                ck.missing(rule, 'kcenters: `%s` is extended in an unrecognised way' % CL)
+                n -= 1
+            else:
+                ck.bad(rule, mod, unpack, F, u(unpack)[:120],
+                       'the new centre returned by the iteration is never appended to the '
+                       'centre-coordinate list `%s` although its index is appended to the index list' % CL)
+            continue
+        good = [a for a in apps if a.args and isinstance(a.args[0], ast.Name)
+                and a.args[0].id == t0.id and fi.defs_of_use(a.args[0]) == {unpack}]
+        ck.check(len(apps) == 1 and len(good) == 1, rule, mod, unpack, F, u(unpack)[:120],
+                 'the centre returned by the iteration is appended to `%s` once per trip' % CL,
+                 'the new centre returned by the iteration must be appended to the '
+                 'centre-coordinate list exactly once per trip')
+    return n
+
+
+def _pam_roles(ck, rule, mod, fn, fi):
+    """Names of the PAM update by role.  X/metric: parameters 0/1; I, D, A,
+    Cc: what is returned as (indices, distances, labels, coordinates); the
+    per-centre loop is the loop that rebinds Cc; N, ND, NA: the candidate
+    coordinate list / distances / labels that Cc, D, A are rebound to there."""
+    F = '_kmedoids_pam_update'
+    rets = [e for _, e in _ret_tuples(fi, fn, 4)]
+    if len(rets) != 1 or not rets[0] or not all(isinstance(e, ast.Name) for e in rets[0]):
+        ck.missing(rule, '%s: single `return <indices>, <distances>, <labels>, <coordinates>` of plain names not found' % F)
+        return None
+    I, D, A, Cc = [e.id for e in rets[0]]
+    ps = params(fn)
+    if len(ps) < 5:
+        ck.missing(rule, '%s: parameter list not recognised' % F)
+        return None
+    X, metric = ps[0], ps[1]
+    loops = [l for l in walk_local(fn) if isinstance(l, ast.For)
+             and any(isinstance(s, ast.Assign) for s in assigns_to(l, Cc))]
+    loops = [l for l in loops if _enclosing(mod, l, (ast.For, ast.While), stop=fn) is None]
+    if len(loops) != 1 or not isinstance(loops[0].target, ast.Name):
+        ck.missing(rule, '%s: per-centre loop (the loop that rebinds `%s`) not found uniquely' % (F, Cc))
+        return None
+    loop = loops[0]
+
+    def cand(name):
+        vals = []
+        for s in assigns_to(loop, name):
+            v = fi.def_value(s, name)
+            vals.append((s, v))
+        if len(vals) == 1 and isinstance(vals[0][1], ast.Name):
+            return vals[0]
+        return None
+    cN, cD, cA = cand(Cc), cand(D), cand(A)
+    if cN is None or cD is None or cA is None:
+        ck.missing(rule, '%s: accept step `%s, %s = <new>, <new>; %s = <new>` not recognised' % (F, D, A, Cc))
+        return None
+    # arrays of distances to a proposal: results of a call of the metric parameter
+    SRC = {t for s in walk_local(loop) if isinstance(s, ast.Assign) and isinstance(s.value, ast.Call)
+           and isinstance(s.value.func, ast.Name) and s.value.func.id == metric
+           for t in target_names(s.targets[0])}
+    return {'X': X, 'metric': metric, 'I': I, 'D': D, 'A': A, 'Cc': Cc, 'loop': loop, 'SRC': SRC,
+            'cid': loop.target.id, 'N': cN[1].id, 'ND': cD[1].id, 'NA': cA[1].id,
+            'accept': {'Cc': cN[0], 'D': cD[0], 'A': cA[0]}, 'params': ps}
+
+
+def _lockstep_pam(ck, rule, modm):
+    """PAM: N[cid] = proposed coordinates ; I[cid] = proposed index, a pair
+    on every path, the index committed exactly where the candidate state is."""
+    F = '_kmedoids_pam_update'
+    fnp = modm.func(F)
+    fip = finfo(modm, fnp)
+    ck.analysed(modm, fnp)
+    ro = _pam_roles(ck, rule, modm, fnp, fip)
+    if ro is None:
+        return 0
+    loop, cid = ro['loop'], ro['cid']
+    coord_st = [(s, t) for s, t in subscript_stores(loop, ro['N']) if isinstance(s, ast.Assign)]
+    ind_st = [(s, t) for s, t in subscript_stores(loop, ro['I']) if isinstance(s, ast.Assign)]
+    if len(coord_st) == 1 and not ind_st and not [s for s in assigns_to(loop, ro['I'])] and not [
+            c for c in calls_in(loop) if isinstance(c.func, ast.Attribute) and isinstance(c.func.value, ast.Name)
+            and c.func.value.id == ro['I']]:
+        ck.bad(rule, modm, coord_st[0][0], F, '%s ; %s' % (u(coord_st[0][0]), u(ro['accept']['Cc'])),
+               'the accept step replaces the centre coordinates (`%s`) but the index list `%s` is never '
+               'updated in the per-centre loop: centres and centre indices go out of step' % (u(ro['accept']['Cc']), ro['I']))
+        return 1
+    if len(coord_st) != 1 or len(ind_st) != 1:
+        ck.missing(rule, 'PAM update: stores %s[cid]/%s[cid] not found uniquely' % (ro['N'], ro['I']))
+        return 0
+    (cs, ct), (is_, it) = coord_st[0], ind_st[0]
+    same_cid = fip.xu(ct.slice) == fip.xu(it.slice) == cid
+    verdict, why = _proposal_pair(modm, fnp, fip, cs.value, is_.value, ro['X'])
+    construct = '%s  <->  %s' % (u(cs), u(is_))
+    if verdict == 'unknown':
+        ck.missing(rule, 'PAM update: %s (%s)' % (why, construct[:100]))
+        return 0
+    ck.check(same_cid and verdict == 'ok', rule, modm, is_, F, construct,
+             'candidate coordinates and candidate index are paired on every path (%s)' % why,
+             'candidate centre coordinates and its index are not a pair: %s' % (
+                 why if verdict != 'ok' else 'stored at different positions %s / %s' % (u(ct.slice), u(it.slice))))
+    # the index store is committed together with the candidate state
+    cfg = fip.cfg
+    acc = ro['accept']['Cc']
+
+    def together(a, b):
+        return (cfg.dominates(a, b) and cfg.postdominates(b, a)) or \
+            (cfg.dominates(b, a) and cfg.postdominates(a, b))
+    parts = [is_, ro['accept']['D'], ro['accept']['A']]
+    ck.check(all(together(acc, p) for p in parts), rule, modm, is_, F,
+             'accept: %s' % '; '.join(sorted({u(x) for x in [acc] + parts})),
+             'centre index, coordinates, distances and labels are committed under the same condition',
+             'the accept step must commit the candidate index, the candidate coordinate list, '
+             'distances and labels together: one of them is updated on a path where the others are not')
+    return 1
+
+
+def _proposal_pair(mod, fn, fi, coord_expr, ind_expr, X):
     """Every definition of the coordinate is X[p]/distribute_frame(X, p...) or
     the first element of _propose_new_center_amongst's pair, with p the
-    matching definition of the index."""
+    matching definition of the index.  -> ('ok'|'bad'|'unknown', detail)"""
     if not (isinstance(coord_expr, ast.Name) and isinstance(ind_expr, ast.Name)):
-        return False, 'expected plain names'
+        if fi.xu(coord_expr) == '%s[%s]' % (X, fi.xu(ind_expr)):
+            return 'ok', '%s[<index>] stored directly' % X
+        return 'unknown', 'candidate coordinate/index are not plain names'
     cname, iname = coord_expr.id, ind_expr.id
-    X = params(fn)[0]
     details = []
     for s in assigns_to(fn, cname):
         if isinstance(s, ast.Assign) and isinstance(s.targets[0], ast.Tuple):
             names = target_names(s.targets[0])
-            if names == [cname, iname] and isinstance(s.value, ast.Call) and \
-                    (call_name(s.value) or '').endswith('_propose_new_center_amongst'):
-                details.append('tuple from _propose_new_center_amongst')
-                continue
-            return False, 'unexpected tuple definition %s' % u(s)[:80]
-        v = s.value
+            if isinstance(s.value, ast.Call) and \
+                    _last(call_name(s.value)) == '_propose_new_center_amongst':
+                if names == [cname, iname]:
+                    details.append('tuple from _propose_new_center_amongst')
+                    continue
+                if names == [iname, cname]:
+                    return 'bad', '_propose_new_center_amongst returns (coordinates, index); unpacked as %s' % names
+            return 'unknown', 'unexpected tuple definition %s' % u(s)[:80]
+        v = getattr(s, 'value', None)
         if isinstance(v, ast.Subscript) and u(v.value) == X and \
-                isinstance(v.slice, ast.Name) and v.slice.id == iname:
+                isinstance(_strip_int(v.slice), ast.Name) and _strip_int(v.slice).id == iname:
             details.append('%s[%s]' % (X, iname))
             continue
-        if isinstance(v, ast.Call) and (call_name(v) or '').endswith('distribute_frame'):
-            data = kwarg(v, 'data') or (v.args[0] if v.args else None)
-            owner = kwarg(v, 'owner_rank')
-            wi = kwarg(v, 'world_index')
-            if u(data) == X and u(owner) == '%s[0]' % iname and u(wi) == '%s[1]' % iname:
+        if isinstance(v, ast.Call) and _last(call_name(v)) == 'distribute_frame':
+            data, wi, owner = _df_args(v)
+            xo, xw = fi.xu(owner, stop=(iname,)), fi.xu(wi, stop=(iname,))
+            if u(data) == X and xo == '%s[0]' % iname and xw == '%s[1]' % iname:
                 details.append('distribute_frame(%s, %s[0], %s[1])' % (X, iname, iname))
                 continue
-            return False, 'distribute_frame arguments do not address %s in %s: %s' % (iname, X, u(v)[:100])
-        return False, 'coordinate defined from %s' % u(v)[:80]
+            if u(data) == X and xo == '%s[1]' % iname and xw == '%s[0]' % iname:
+                return 'bad', 'distribute_frame owner/index taken from %s in the wrong order: %s' % (iname, u(v)[:100])
+            if names_loaded(v) <= {X, iname, 'mpi'}:
+                return 'bad', 'distribute_frame arguments do not address %s in %s: %s' % (iname, X, u(v)[:100])
+            return 'unknown', 'distribute_frame arguments not recognised: %s' % u(v)[:100]
+        if v is None:
+            return 'unknown', 'definition of %s not recognised: %s' % (cname, u(s)[:80])
+        c = classify(fi.expand(v, stop=(iname,)), ['%s[%s]' % (X, iname)], scope={X, iname})
+        if c[0] == 'match':
+            details.append('%s[%s]' % (X, iname))
+            continue
+        if c[0] == 'near':
+            return 'bad', 'coordinate defined from %s, not from %s[%s]' % (u(v)[:80], X, iname)
+        return 'unknown', 'coordinate defined from %s' % u(v)[:80]
     if not details:
-        return False, 'no definition of the candidate coordinate found'
-    return True, ', '.join(details)
+        return 'unknown', 'no definition of the candidate coordinate found'
+    return 'ok', ', '.join(details)
+
+
+def d1_warmstart(ck):
+    """kcenters(): the index list and the coordinate list handed to the loop
+    (and returned as center_indices / centers) are paired position by
+    position: both empty (cold start), or the coordinate list C built from
+    init_centers and the index list = list(find_cluster_centers(a, d)) with
+    (a, d) the result of assign_to_nearest_center(<data>, C, ...): ONE index
+    per label, in label order = order of C."""
+    rule = 'C01.D1.warmstart'
+    mod = ck.repo.mod(KC)
+    F = 'kcenters'
+    fn = mod.func(F)
+    fi = finfo(mod, fn)
+    ck.analysed(mod, fn)
+    cfg = fi.cfg
+    ils, cls = _result_kw_names(fn, 'center_indices'), _result_kw_names(fn, 'centers')
+    if len(ils) != 1 or len(cls) != 1:
+        ck.missing(rule, 'kcenters: names returned as center_indices=/centers= not found uniquely')
+        return
+    IL, CL = ils[0], cls[0]
+    data = params(fn)[0]
+    loops = [l for l in walk_local(fn) if isinstance(l, (ast.While, ast.For))]
+    idefs = [s for s in assigns_to(fn, IL) if isinstance(s, ast.Assign)
+             and not any(_inside(mod, s, l) for l in loops)]
+    cdefs = [s for s in assigns_to(fn, CL) if isinstance(s, ast.Assign)
+             and not any(_inside(mod, s, l) for l in loops)]
+    n = 0
+    for s in idefs:
+        v = fi.def_value(s, IL)
+        if v is None:
+            ck.missing(rule, 'kcenters: definition of `%s` not recognised: %s' % (IL, u(s)[:80]))
+            continue
+        near_c = [c for c in cdefs if cfg.dominates(c, s) or cfg.dominates(s, c)]
+        # keep the coordinate definitions of the same straight-line region
+        near_c = [c for c in near_c if _same_region(mod, c, s)]
+        if len(near_c) != 1:
+            ck.missing(rule, 'kcenters: definition of the coordinate list `%s` paired with `%s` not found' % (CL, u(s)[:60]))
+            continue
+        cdef = near_c[0]
+        cval = fi.def_value(cdef, CL)
+        n += 1
+        if _is_empty_list(v):
+            if cval is not None and _is_empty_list(cval):
+                ck.ok(rule, mod, s, '%s ; %s' % (u(s), u(cdef)), 'cold start: no centres, no indices')
+            elif cval is None:
+                ck.missing(rule, 'kcenters: definition of `%s` not recognised: %s' % (CL, u(cdef)[:80]))
+            else:
+                ck.bad(rule, mod, s, F, '%s ; %s' % (u(s), u(cdef)),
+                       'the index list starts empty while the coordinate list starts as %s: '
+                       'center_indices[j] would not be the frame of centers[j]' % u(cval)[:60])
+            continue
+        # warm start: the labels/distances sweep over the same coordinate list
+        sweeps = [a for a in walk_local(fn) if isinstance(a, ast.Assign)
+                  and isinstance(a.targets[0], ast.Tuple) and len(a.targets[0].elts) == 2
+                  and isinstance(a.value, ast.Call)
+                  and _last(call_name(a.value)) == 'assign_to_nearest_center'
+                  and cfg.dominates(a, s) and _same_region(mod, a, s)]
+        if len(sweeps) != 1 or not all(isinstance(e, ast.Name) for e in sweeps[0].targets[0].elts):
+            ck.missing(rule, 'kcenters: warm-start sweep `<labels>, <distances> = assign_to_nearest_center(...)` '
+                       'before `%s` not found' % u(s)[:60])
+            n -= 1
+            continue
+        sw = sweeps[0]
+        a_name, d_name = [e.id for e in sw.targets[0].elts]
+        forms = ['list(_F.find_cluster_centers(_A, _D))', 'list(find_cluster_centers(_A, _D))',
+                 '_F.find_cluster_centers(_A, _D).tolist()', 'find_cluster_centers(_A, _D).tolist()',
+                 '[_E for _E in _F.find_cluster_centers(_A, _D)]', '[_E for _E in find_cluster_centers(_A, _D)]',
+                 '[int(_E) for _E in _F.find_cluster_centers(_A, _D)]', '[int(_E) for _E in find_cluster_centers(_A, _D)]']
+        c = classify(fi.expand(v, stop=(a_name, d_name)), forms, scope={a_name, d_name})
+        construct = u(s)
+        bad = ('the centre indices of a warm start must be ONE frame per label in label order '
+               '(list(find_cluster_centers(%s, %s)), which pairs center_indices[j] with init centre j): '
+               'an index set computed otherwise (e.g. the zero-distance frames in ascending frame order) '
+               'does not line up with the centre list `%s`' % (a_name, d_name, CL))
+        if c[0] != 'match':
+            ck.decide(c, rule, mod, s, F, construct, '', bad)
+            continue
+        b = c[1]
+        if not (isinstance(b['_A'], ast.Name) and isinstance(b['_D'], ast.Name)):
+            ck.missing(rule, 'kcenters: find_cluster_centers operands are not plain names: %s' % construct[:80])
+            n -= 1
+            continue
+        if (b['_A'].id, b['_D'].id) == (d_name, a_name):
+            ck.bad(rule, mod, s, F, construct, 'find_cluster_centers(assignments, distances) is called with '
+                   'the two results of the sweep swapped')
+            continue
+        if (b['_A'].id, b['_D'].id) != (a_name, d_name):
+            ck.missing(rule, 'kcenters: find_cluster_centers is not applied to the result of the warm-start sweep: %s' % construct[:80])
+            n -= 1
+            continue
+        # sweep arguments: (data, the coordinate list)
+        call = sw.value
+        a0 = arg_or_kw(call, 0, 'trajectory')
+        a1 = arg_or_kw(call, 1, 'cluster_centers')
+        src = None
+        if cval is not None:
+            m = match('[_E for _E in _S]', cval) or match('list(_S)', cval)
+            if m and isinstance(m.get('_S'), ast.AST):
+                src = u(m['_S'])
+        ctr_ok = isinstance(a1, ast.Name) and a1.id == CL and cfg.dominates(cdef, sw)
+        ctr_ok = ctr_ok or (a1 is not None and src is not None and u(a1) == src)
+        if a0 is None or a1 is None or u(a0) != data:
+            ck.missing(rule, 'kcenters: arguments of the warm-start sweep not recognised: %s' % u(call)[:100])
+            n -= 1
+            continue
+        if not ctr_ok:
+            if isinstance(a1, ast.Name) and a1.id in params(fn) + [IL]:
+                ck.bad(rule, mod, sw, F, u(sw)[:160], 'the warm-start sweep assigns frames to `%s`, not to the centre '
+                       'list `%s` that is returned: labels would not index the reported centres' % (u(a1), CL))
+            else:
+                ck.missing(rule, 'kcenters: centre argument of the warm-start sweep not recognised: %s' % u(a1)[:60])
+                n -= 1
+            continue
+        ck.ok(rule, mod, s, '%s ; %s' % (u(sw)[:120], construct),
+              'warm start: indices = per-label find_cluster_centers of the sweep over the returned centre list')
+    ck.floor(rule, n, 2, 'initialisations of the (centre index, centre coordinate) lists')
+
+
+def _inside(mod, node, outer):
+    n = mod.parent.get(node)
+    while n is not None:
+        if n is outer:
+            return True
+        n = mod.parent.get(n)
+    return False
+
+
+def _same_region(mod, a, b):
+    """a and b are statements of the same branch: the chain of enclosing
+    if-branches of one is a prefix of the other's (no sibling branches)."""
+    def chain(s):
+        out = []
+        n, child = mod.parent.get(s), s
+        while n is not None and not isinstance(n, (ast.FunctionDef, ast.AsyncFunctionDef)):
+            if isinstance(n, ast.If):
+                out.append((id(n), 'body' if any(child is x for x in n.body) else 'orelse'))
+            child, n = n, mod.parent.get(n)
+        return list(reversed(out))
+    ca, cb = chain(a), chain(b)
+    k = min(len(ca), len(cb))
+    return ca[:k] == cb[:k]
 
 
 def d1_propose(ck):
     """_propose_new_center_amongst returns (X[i], i) / (distribute_frame(X,r,i),(r,i))."""
     rule = 'C01.D1.propose'
     mod = ck.repo.mod(KM)
-    fn = mod.func('_propose_new_center_amongst')
+    F = '_propose_new_center_amongst'
+    fn = mod.func(F)
     ck.analysed(mod, fn)
     fi = finfo(mod, fn)
     X = params(fn)[0]
-    rets = returns_of(fn)
     n = 0
-    for r in rets:
-        if not (isinstance(r.value, ast.Tuple) and len(r.value.elts) == 2):
-            ck.bad(rule, mod, r, '_propose_new_center_amongst', u(r),
-                   'must return (coordinates, index)')
+    for r, elts in _ret_tuples(fi, fn, 2):
+        if elts is None:
+            ck.missing(rule, '%s: returned value is not a tuple display' % F)
             continue
-        c, i = r.value.elts
-        for site in fi.defs_of_use(c) if isinstance(c, ast.Name) else []:
-            v = fi.def_value(site, c.id)
+        if not elts:
+            ck.bad(rule, mod, r, F, u(r), 'must return (coordinates, index)')
+            continue
+        c, i = elts
+        if isinstance(c, ast.Name):
+            sites = [(site, fi.def_value(site, c.id)) for site in fi.defs_of_use(c)]
+        else:
+            sites = [(r, c)]
+        for site, v in sites:
+            if site in ('PARAM', 'UNBOUND') or v is None:
+                ck.missing(rule, '%s: definition of the proposed coordinates not recognised' % F)
+                continue
             n += 1
             if isinstance(v, ast.Subscript):
-                ok = u(v.value) == X and isinstance(i, ast.Name) and u(v.slice) == i.id
-                ck.check(ok, rule, mod, site, '_propose_new_center_amongst', u(site),
+                ok = u(v.value) == X and isinstance(i, ast.Name) and \
+                    isinstance(_strip_int(v.slice), ast.Name) and _strip_int(v.slice).id == i.id
+                ck.check(ok, rule, mod, site, F, u(site),
                          'serial proposal is X[i] with the returned i',
                          'proposed coordinates must be `%s[<returned index>]`' % X)
-            elif isinstance(v, ast.Call) and (call_name(v) or '').endswith('distribute_frame'):
-                data = kwarg(v, 'data') or (v.args[0] if v.args else None)
-                owner, wi = kwarg(v, 'owner_rank'), kwarg(v, 'world_index')
+            elif isinstance(v, ast.Call) and _last(call_name(v)) == 'distribute_frame':
+                data, wi, owner = _df_args(v)
                 # the returned index must be (owner, wi)
                 idef = None
                 if isinstance(i, ast.Name):
-                    ds = [d for d in fi.defs_of_use(i) if d is not site]
                     for d in fi.defs_of_use(i):
-                        vv = fi.def_value(d, i.id)
+                        vv = fi.def_value(d, i.id) if d not in ('PARAM', 'UNBOUND') else None
                         if isinstance(vv, ast.Tuple):
                             idef = vv
-                ok = u(data) == X and idef is not None and len(idef.elts) == 2 and \
+                elif isinstance(i, ast.Tuple):
+                    idef = i
+                if idef is None or owner is None or wi is None:
+                    ck.missing(rule, '%s: returned (rank, index) pair of the MPI proposal not recognised' % F)
+                    n -= 1
+                    continue
+                ok = u(data) == X and len(idef.elts) == 2 and \
                     u(idef.elts[0]) == u(owner) and u(idef.elts[1]) == u(wi)
-                ck.check(ok, rule, mod, site, '_propose_new_center_amongst', u(site)[:160],
+                ck.check(ok, rule, mod, site, F, u(site)[:160],
                          'MPI proposal frame address equals the returned (rank, index) pair',
                          'distribute_frame(owner_rank, world_index) must be the '
                          'returned (rank, index) pair in that order')
             else:
-                ck.bad(rule, mod, site, '_propose_new_center_amongst', u(site)[:120],
-                       'proposed coordinates are not taken from X')
+                cl = classify(fi.expand(v), ['%s[_I]' % X], scope={X} | ({i.id} if isinstance(i, ast.Name) else set()))
+                ck.decide(cl if cl[0] != 'match' else 'far', rule, mod, site, F, u(site)[:120], '',
+                          'proposed coordinates are not taken from %s' % X)
     ck.floor(rule, n, 2, 'proposal definitions')
+
+
+# ---------------------------------------------------------------------------
+# D2 (argmin branch, shortcut opt-in; the commit itself is in cluster_common)
+
+def d2_argmin_branch(ck):
+    """Per-frame branch of assign_to_nearest_center: label = argmin and
+    distance = min of the SAME distance vector, stored at the same frame."""
+    rule = 'C01.D2.argmin-branch'
+    mod = ck.repo.mod(CU)
+    F = 'assign_to_nearest_center'
+    fn = mod.func(F)
+    fi = finfo(mod, fn)
+    rets = [e for _, e in _ret_tuples(fi, fn, 2) if e]
+    if not rets or not all(isinstance(x, ast.Name) for x in rets[0]):
+        ck.missing(rule, '%s: `return <labels>, <distances>` not found' % F)
+        return
+    A, D = rets[0][0].id, rets[0][1].id
+    REDUCE = ('argmin', 'argmax', 'min', 'max')
+
+    def reduction(e):
+        """(method, canonical operand text) of a reduction over one vector."""
+        x = canon(fi.expand(e))
+        x = _strip_int(x)
+        if isinstance(x, ast.Call) and isinstance(x.func, ast.Attribute) and x.func.attr in REDUCE \
+                and not x.args and not [k for k in x.keywords if k.arg != 'axis']:
+            return x.func.attr, u(x.func.value)
+        if isinstance(x, ast.Call) and _last(call_name(x)) in ('amin', 'amax', 'nanmin', 'nanargmin') and x.args:
+            return _last(call_name(x)), u(x.args[0])
+        return None
+
+    n = 0
+    for loop in [l for l in walk_local(fn) if isinstance(l, ast.For)]:
+        sa = [(s, t, reduction(s.value)) for s, t in subscript_stores(loop, A) if isinstance(s, ast.Assign)]
+        sd = [(s, t, reduction(s.value)) for s, t in subscript_stores(loop, D) if isinstance(s, ast.Assign)]
+        sa = [x for x in sa if x[2] is not None]
+        sd = [x for x in sd if x[2] is not None]
+        if not sa and not sd:
+            continue
+        n += 1
+        if len(sa) != 1 or len(sd) != 1:
+            ck.bad(rule, mod, loop, F, u(loop)[:120],
+                   'per-frame branch must store both argmin (label) and min (distance)')
+            continue
+        (a, ta, ra), (m, tm, rm) = sa[0], sd[0]
+        same = ra[1] == rm[1]
+        right = ra[0] == 'argmin' and rm[0] in ('min', 'amin')
+        same_cell = fi.xu(ta.slice, strict=False) == fi.xu(tm.slice, strict=False)
+        ck.check(same and same_cell and right, rule, mod, a, F,
+                 '%s ; %s' % (u(a), u(m)),
+                 'label = argmin and distance = min of the same distance vector, same frame',
+                 'argmin and min must be taken over the same array and stored at the '
+                 'same frame index into %s resp. %s' % (A, D))
+    ck.floor(rule, n, 1, 'argmin/min branch')
+
+
+def _guards(mod, fn, stmt):
+    """[(test, polarity)] of the if-statements enclosing stmt."""
+    out = []
+    n, child = mod.parent.get(stmt), stmt
+    while n is not None and n is not fn:
+        if isinstance(n, ast.If):
+            out.append((n.test, any(child is x for x in n.body)))
+        elif isinstance(n, (ast.For, ast.While)):
+            out.append((None, True))
+        child, n = n, mod.parent.get(n)
+    return out
+
+
+def d2_shortcut_optin(ck):
+    """The triangle-inequality shortcut makes the candidate array a COPY of the
+    current distances and recomputes only some frames; frames it skips can
+    never pass the strict commit test.  That is exact only for true metrics,
+    while every clustering entry point accepts arbitrary callables.  The
+    shortcut therefore has to be opt-in: guarded by a flag parameter whose
+    default is False, handed down unchanged by kcenters(), and not switched
+    on by any in-package caller."""
+    rule = 'C01.D2.shortcut-optin'
+    mod = ck.repo.mod(KC)
+    n = 0
+    flags = {}
+    for F in ('_kcenters_iteration', '_kcenters_iteration_mpi'):
+        fn = mod.func(F)
+        fi = finfo(mod, fn)
+        ck.analysed(mod, fn)
+        ps = params(fn)
+        for inst in find_running_min_commits(mod, fn):
+            new, cur = inst['new'], inst['cur']
+            copies = [s for s in assigns_to(fn, new) if isinstance(s, ast.Assign)
+                      and fi.def_value(s, new) is not None
+                      and fi.xu(fi.def_value(s, new)) in ('%s.copy()' % cur, cur, 'copy.copy(%s)' % cur,
+                                                         'copy.deepcopy(%s)' % cur, '%s[:]' % cur,
+                                                         'np.asarray(%s)' % cur)]
+            if not copies:
+                ck.ok(rule, mod, inst['mask_stmt'], '%s: candidate `%s`' % (F, new),
+                      'no shortcut: the candidate array is never a copy of the current distances')
+                n += 1
+                continue
+            for s in copies:
+                n += 1
+                gs = _guards(mod, fn, s)
+                flag = None
+                opaque = False
+                for test, pol in gs:
+                    if test is None:
+                        continue
+                    cj = conjuncts(test, pol)
+                    if cj is None:
+                        opaque = True
+                        continue
+                    for c in cj:
+                        if isinstance(c, tuple) and c[0] == 'expr' and c[2] is True and \
+                                isinstance(c[1], ast.Name) and c[1].id in ps and \
+                                fi.defs_of_use(c[1]) == {'PARAM'}:
+                            flag = c[1].id
+                if flag is None:
+                    if opaque or any(t is not None for t, _ in gs):
+                        ck.missing(rule, '%s: guard of the shortcut `%s` is not a conjunction containing a flag parameter' % (F, u(s)[:60]))
+                        n -= 1
+                    else:
+                        ck.bad(rule, mod, s, F, u(s), 'the triangle-inequality shortcut (candidate = copy of the current '
+                               'distances) is taken unconditionally: it is exact only for true metrics')
+                    continue
+                flags[F] = flag
+                dflt = param_default(fn, flag)
+                if dflt is None:
+                    ck.bad(rule, mod, s, F, '%s(%s)' % (F, flag), 'the shortcut flag `%s` has no default: it must default to False' % flag)
+                elif isinstance(dflt, ast.Constant):
+                    ck.check(not dflt.value, rule, mod, fn, F, '%s(%s=%s)' % (F, flag, u(dflt)),
+                             'shortcut guarded by `%s`, default off' % flag,
+                             'the triangle-inequality shortcut is ON by default (`%s=%s`): for a dissimilarity that is not '
+                             'a metric, skipped frames keep a centre that is not their nearest' % (flag, u(dflt)))
+                else:
+                    ck.missing(rule, '%s: default of `%s` is not a constant' % (F, flag))
+                    n -= 1
+    if not flags:
+        ck.floor(rule, n, 2, 'shortcut guards')
+        return
+    fl = set(flags.values())
+    # kcenters(): hands its own flag parameter (default False) down
+    fnk = mod.func('kcenters')
+    fik = finfo(mod, fnk)
+    kflag = None
+    calls = [c for c in calls_in(fnk)
+             if _callee_names(fik, c) & {'_kcenters_iteration', '_kcenters_iteration_mpi'}]
+    for c in calls:
+        vals = [k.value for k in c.keywords if k.arg in fl]
+        n += 1
+        if not vals:
+            if len(c.args) > 5:
+                ck.missing(rule, 'kcenters: shortcut flag possibly passed positionally: %s' % u(c)[:100])
+                n -= 1
+            else:
+                ck.ok(rule, mod, c, u(c)[:160], 'flag not passed: callee default (off)')
+            continue
+        v = vals[0]
+        verdict, why = _flag_value(mod, fnk, fik, v)
+        if verdict == 'param':
+            kflag = v.id
+        _record_flag(ck, rule, mod, c, 'kcenters', verdict, why, v)
+        if verdict == 'unknown':
+            n -= 1
+    # every in-package call of the driver
+    sites = 0
+    for rel in (KC, KM, HY, CU, AP):
+        m = ck.repo.mod(rel)
+        for q, f in m.functions.items():
+            for c in calls_in(f):
+                cn = call_name(c) or ''
+                if _last(cn) not in ('kcenters', 'kcenters_mpi') or (
+                        '.' in cn and cn.split('.')[-2] not in ('kcenters', 'cluster')):
+                    continue
+                fi2 = finfo(m, f)
+                ck.analysed(m, f)
+                sites += 1
+                names = ({kflag} if kflag else set()) | fl
+                vals = [k.value for k in c.keywords if k.arg in names]
+                pos = params(fnk).index(kflag) if kflag in params(fnk) else None
+                if not vals and pos is not None and len(c.args) > pos and \
+                        not any(isinstance(a, ast.Starred) for a in c.args):
+                    vals = [c.args[pos]]
+                if not vals:
+                    ck.ok(rule, m, c, u(c)[:160], 'shortcut not requested: default (off)')
+                    continue
+                verdict, why = _flag_value(m, f, fi2, vals[0])
+                _record_flag(ck, rule, m, c, q, verdict, why, vals[0])
+    n += sites
+    ck.floor(rule, sites, 3, 'in-package calls of kcenters()')
+    ck.floor(rule + '.guards', n - sites, 3, 'shortcut guards and hand-down')
+
+
+def _flag_value(mod, fn, fi, v):
+    """Classify the value passed for the shortcut flag."""
+    if isinstance(v, ast.Constant):
+        return ('off', 'constant %r' % (v.value,)) if not v.value else ('on', 'constant %r' % (v.value,))
+    if isinstance(v, ast.Name):
+        try:
+            defs = fi.defs_of_use(v)
+        except Exception:
+            defs = set()
+        if defs == {'PARAM'}:
+            d = param_default(fn, v.id)
+            if isinstance(d, ast.Constant) and not d.value:
+                return 'param', 'caller\'s own option `%s` (default %s)' % (v.id, u(d))
+            if isinstance(d, ast.Constant):
+                return 'on', 'caller\'s option `%s` defaults to %s' % (v.id, u(d))
+            return 'unknown', 'option `%s` without constant default' % v.id
+        r = fi.resolve(v)
+        if r is not v:
+            return _flag_value(mod, fn, fi, r)
+    return 'unknown', 'value `%s` not recognised' % u(v)[:60]
+
+
+def _record_flag(ck, rule, mod, call, q, verdict, why, v):
+    if verdict in ('off', 'param'):
+        ck.ok(rule, mod, call, u(call)[:160], 'shortcut flag: %s' % why)
+    elif verdict == 'on':
+        ck.bad(rule, mod, call, q, u(call)[:200],
+               'this call switches the triangle-inequality shortcut of k-centers ON (%s) although the '
+               'dissimilarity is whatever callable the user supplied: frames with d(x, own centre) <= '
+               'd(own centre, new centre)/2 are not re-measured, which is exact only for a true metric; '
+               'for e.g. squared distances they keep a centre although the new one is strictly closer' % why)
+    else:
+        ck.missing(rule, '%s: %s in %s' % (q, why, u(call)[:100]))
+
+
+# ---------------------------------------------------------------------------
+# D3
+
+def _pam_masks(ck, rule, mod, fn, fi, ro):
+    """{key: {'a': [(stmt, target)], 'd': [...], 'tree', 'expr'}} for the
+    stores into the candidate label / distance arrays, keyed by the canonical
+    text of the expanded index (mask) expression."""
+    loop = ro['loop']
+    out = {}
+    for kind, base in (('a', ro['NA']), ('d', ro['ND'])):
+        for s, t in subscript_stores(loop, base):
+            if not isinstance(s, ast.Assign):
+                continue
+            ex = canon(fi.expand(t.slice, strict=False))
+            key = u(ex)
+            e = out.setdefault(key, {'a': [], 'd': [], 'expr': ex, 'tree': mask_atoms(ex),
+                                     'shown': u(t.slice)})
+            e[kind].append((s, t))
+    return out
 
 
 def d3_pam_three_way(ck):
     rule = 'C01.D3.pam'
     mod = ck.repo.mod(KM)
-    fn = mod.func('_kmedoids_pam_update')
+    F = '_kmedoids_pam_update'
+    fn = mod.func(F)
     fi = finfo(mod, fn)
     ck.analysed(mod, fn)
-    # candidate arrays: the two returned/committed arrays new_dist/new_assig
-    st_assig = subscript_stores(fn, 'new_assig')
-    st_dist = subscript_stores(fn, 'new_dist')
-    if not st_assig or not st_dist:
-        ck.missing(rule, 'stores into new_assig/new_dist not found')
+    ro = _pam_roles(ck, rule, mod, fn, fi)
+    if ro is None:
         return
-    masks_a = {}
-    for s, t in st_assig:
-        masks_a.setdefault(u(t.slice), []).append(s)
-    masks_d = {}
-    for s, t in st_dist:
-        masks_d.setdefault(u(t.slice), []).append(s)
+    masks = _pam_masks(ck, rule, mod, fn, fi, ro)
+    if not any(e['a'] for e in masks.values()) or not any(e['d'] for e in masks.values()):
+        ck.missing(rule, 'stores into %s/%s not found' % (ro['NA'], ro['ND']))
+        return
     # (1) each mask writes both arrays
-    for m in sorted(set(masks_a) | set(masks_d)):
-        both = m in masks_a and m in masks_d
-        node = (masks_a.get(m) or masks_d.get(m))[0]
-        ck.check(both, rule + '.both', mod, node, '_kmedoids_pam_update',
-                 'mask %s' % m,
+    for key in sorted(masks):
+        e = masks[key]
+        both = bool(e['a']) and bool(e['d'])
+        node = (e['a'] or e['d'])[0][0]
+        m = e['shown']
+        ck.check(both, rule + '.both', mod, node, F, 'mask %s' % m,
                  'labels and distances are both written under mask %s' % m,
                  'mask `%s` writes %s but not %s: candidate labels and distances '
                  'would describe different clusterings' % (
-                     m, 'labels' if m in masks_a else 'distances',
-                     'distances' if m in masks_a else 'labels'))
+                     m, 'labels' if e['a'] else 'distances',
+                     'distances' if e['a'] else 'labels'))
+    trees = {k: e for k, e in masks.items() if e['a'] and e['d']}
     # (2) exhaustiveness of the mask family over its atoms
-    trees = {}
-    for m in sorted(set(masks_a) & set(masks_d)):
-        name_node = None
-        for s in masks_a[m]:
-            for tt in s.targets:
-                if isinstance(tt, ast.Subscript) and isinstance(tt.slice, ast.Name):
-                    name_node = tt.slice
-        if name_node is None:
-            raise AnalysisIncomplete('PAM mask %s is not a plain name' % m)
-        defs = fi.defs_of_use(name_node)
-        if len(defs) != 1:
-            raise AnalysisIncomplete('PAM mask %s has %d definitions' % (m, len(defs)))
-        v = fi.def_value(next(iter(defs)), name_node.id)
-        trees[m] = (mask_atoms(v), v)
     keys = []
-    for m, (tr, v) in trees.items():
-        for k in mask_keys(tr):
-            if k not in keys:
-                keys.append(k)
+    for k, e in trees.items():
+        for a in mask_keys(e['tree']):
+            if a not in keys:
+                keys.append(a)
     if len(keys) > 6:
         raise AnalysisIncomplete('too many atoms in PAM masks')
     uncovered = []
-    import itertools
     for vals in itertools.product([False, True], repeat=len(keys)):
         asg = dict(zip(keys, vals))
-        if not any(eval_mask(tr, asg) for tr, _ in trees.values()):
+        if not any(eval_mask(e['tree'], asg) for e in trees.values()):
             uncovered.append(asg)
-    ck.check(not uncovered, rule + '.exhaustive', mod, fn, '_kmedoids_pam_update',
-             'masks: ' + '; '.join('%s := %s' % (m, u(v)) for m, (t, v) in trees.items()),
+    ck.check(not uncovered, rule + '.exhaustive', mod, fn, F,
+             'masks: ' + '; '.join('%s := %s' % (e['shown'], k) for k, e in trees.items()),
              'the %d masks cover all %d truth assignments of the atoms %s' % (
                  len(trees), 2 ** len(keys), ['%s %s %s' % k for k in keys]),
              'frames with %s are covered by no reassignment mask and keep the '
@@ -284,57 +969,73 @@ def d3_pam_three_way(ck):
             both = []
             for vals in itertools.product([False, True], repeat=len(keys)):
                 asg = dict(zip(keys, vals))
-                if eval_mask(trees[names[i]][0], asg) and eval_mask(trees[names[j]][0], asg):
+                if eval_mask(trees[names[i]]['tree'], asg) and eval_mask(trees[names[j]]['tree'], asg):
                     both.append(asg)
-            ck.check(not both, rule + '.disjoint', mod, masks_a[names[j]][0], '_kmedoids_pam_update',
-                     '%s := %s  vs  %s := %s' % (names[i], u(trees[names[i]][1]), names[j], u(trees[names[j]][1])),
+            si, sj = trees[names[i]]['shown'], trees[names[j]]['shown']
+            ck.check(not both, rule + '.disjoint', mod, trees[names[j]]['a'][0][0], F,
+                     '%s := %s  vs  %s := %s' % (si, names[i], sj, names[j]),
                      'the two masks select disjoint frame sets',
                      'masks `%s` and `%s` overlap (e.g. when %s): those frames are written by both '
                      'cases and keep the later one, e.g. the old label although the proposal is strictly '
-                     'nearer' % (names[i], names[j], {'%s %s %s' % k: v for k, v in both[0].items()} if both else ''))
+                     'nearer' % (si, sj, {'%s %s %s' % k: v for k, v in both[0].items()} if both else ''))
     # (3) paired sources per mask
-    for m, (tr, v) in trees.items():
-        a_st = masks_a[m][0]
-        d_st = masks_d[m][0]
-        av, dv = a_st.value, d_st.value
-        ok, why = _paired_sources(mod, fn, fi, m, av, dv, tr)
-        ck.check(ok, rule + '.sources', mod, a_st, '_kmedoids_pam_update',
-                 '%s ; %s' % (u(a_st), u(d_st)), why, why)
-    # direction of the "closer to proposal" atom: distances > new_ctr_dist
+    srcs = []
+    for key, e in trees.items():
+        a_st, d_st = e['a'][0][0], e['d'][0][0]
+        verdict, why, src = _paired_sources(mod, fn, fi, ro, key, e, a_st.value, d_st.value)
+        construct = '%s ; %s' % (u(a_st), u(d_st))
+        if src:
+            srcs.append(src)
+        if verdict == 'unknown':
+            ck.missing(rule + '.sources', '%s (%s)' % (why, construct[:120]))
+        else:
+            ck.check(verdict == 'ok', rule + '.sources', mod, a_st, F, construct, why, why)
     ck.floor(rule + '.both', len(trees), 3, 'PAM masks')
+    d3_pam_case_a(ck, mod, fn, fi, ro, srcs)
 
 
-def _paired_sources(mod, fn, fi, m, av, dv, tree=None):
+def _paired_sources(mod, fn, fi, ro, key, e, av, dv):
+    """-> ('ok'|'bad'|'unknown', detail, candidate-distance array name|None)"""
+    m = e['shown']
+    tree = e['tree']
+    cid, A, D = ro['cid'], ro['A'], ro['D']
+    avx = canon(fi.expand(av, strict=False))
+    dvx = canon(fi.expand(dv, strict=False))
+
+    def under_mask(x):
+        return isinstance(x, ast.Subscript) and isinstance(x.value, ast.Name) and u(x.slice) == key
     # case A: (cid, new_ctr_dist[m])
-    if isinstance(av, ast.Name) and isinstance(dv, ast.Subscript) and u(dv.slice) == m:
-        # label is the loop variable of the per-centre loop; dist source must be
-        # the distance array to the proposal, which the mask compared and found
-        # strictly/weakly smaller than the current distance
-        src = u(dv.value)
-        loop = mod.enclosing_stmt(av)
-        while loop is not None and not isinstance(loop, ast.For):
-            loop = mod.parent.get(loop)
-        cid = u(loop.target) if loop is not None else None
-        if av.id != cid:
-            return False, ('frames nearer to the proposal must take the label of the '
-                           'centre being replaced (loop variable `%s`), not `%s`' % (cid, av.id))
-        if tree is None or tree[0] != 'atom':
-            return False, 'mask %s for the nearer-to-proposal case is not a single comparison' % m
+    is_a = under_mask(dvx) and (dvx.value.id in ro['SRC'] or (isinstance(avx, ast.Name) and avx.id == cid))
+    if not is_a and under_mask(dvx) and isinstance(avx, ast.Name) and avx.id in ro['params']:
+        is_a = True
+    if is_a:
+        src = dvx.value.id
+        lv = classify(avx, [cid], scope={cid} | set(ro['params']))
+        if lv[0] == 'far':
+            return 'unknown', 'label `%s` written with the candidate distances %s[%s] not recognised' % (u(av)[:40], src, m), src
+        if lv[0] == 'near':
+            return 'bad', ('frames nearer to the proposal must take the label of the '
+                           'centre being replaced (loop variable `%s`), not `%s`' % (cid, u(avx)[:40])), src
+        if tree[0] != 'atom':
+            return 'bad', 'mask %s for the nearer-to-proposal case is not a single comparison' % m, None
         less = tree[1].as_less()
         if less is None or u(less[0]) != src:
-            return False, ('mask %s must select frames where the candidate distance `%s` '
-                           'is below the current distance; it is `%s`' % (m, src, tree[1]))
+            return 'bad', ('mask %s must select frames where the candidate distance `%s` '
+                           'is below the current distance; it is `%s`' % (m, src, tree[1])), src
         cur = u(less[2])
-        if cur not in params(fn):
-            return False, 'mask %s compares against `%s`, not the current distances' % (m, cur)
-        return True, 'label %s with candidate distances %s[%s] where %s' % (av.id, src, m, tree[1])
+        if cur != D:
+            return 'bad', 'mask %s compares against `%s`, not the current distances `%s`' % (m, cur, D), src
+        return 'ok', 'label %s with candidate distances %s[%s] where %s' % (cid, src, m, tree[1]), src
     # case B: (assignments[m], distances[m])
-    if isinstance(av, ast.Subscript) and isinstance(dv, ast.Subscript) and \
-            u(av.slice) == m and u(dv.slice) == m:
-        a_src, d_src = u(av.value), u(dv.value)
-        ps = params(fn)
-        ok = a_src in ps and d_src in ps or True
-        return True, 'old labels %s[%s] with old distances %s[%s]' % (a_src, m, d_src, m)
+    if under_mask(avx) and under_mask(dvx):
+        a_src, d_src = avx.value.id, dvx.value.id
+        if (a_src, d_src) == (A, D):
+            return 'ok', 'old labels %s[%s] with old distances %s[%s]' % (a_src, m, d_src, m), None
+        known = {A, D, ro['NA'], ro['ND']} | set(ro['params']) | ro['SRC']
+        if a_src in known and d_src in known:
+            return 'bad', ('frames that stay with another centre must keep (%s[%s], %s[%s]); '
+                           'found (%s[%s], %s[%s])' % (A, m, D, m, a_src, m, d_src, m)), None
+        return 'unknown', 'sources %s/%s of mask %s not recognised' % (a_src, d_src, m), None
     # case C: both from one assign_to_nearest_center call
     if isinstance(av, ast.Name) and isinstance(dv, ast.Name):
         da, dd = fi.defs_of_use(av), fi.defs_of_use(dv)
@@ -342,72 +1043,126 @@ def _paired_sources(mod, fn, fi, m, av, dv, tree=None):
             site = next(iter(da))
             if isinstance(site, ast.Assign) and isinstance(site.targets[0], ast.Tuple) \
                     and isinstance(site.value, ast.Call) and \
-                    (call_name(site.value) or '').endswith('assign_to_nearest_center'):
+                    _last(call_name(site.value)) == 'assign_to_nearest_center':
                 names = target_names(site.targets[0])
                 if names == [av.id, dv.id]:
                     call = site.value
-                    data = call.args[0] if call.args else kwarg(call, 'trajectory')
-                    ctrs = call.args[1] if len(call.args) > 1 else kwarg(call, 'cluster_centers')
-                    if not (isinstance(data, ast.Subscript) and u(data.slice) == m):
-                        return False, ('ambiguous frames are recomputed for %s but stored '
-                                       'under mask %s' % (u(data), m))
-                    return True, ('(labels, distances) unpacked in order from one '
-                                  'assign_to_nearest_center(%s, %s) call' % (u(data), u(ctrs)))
-                return False, ('assign_to_nearest_center returns (assignments, distances); '
-                               'unpacked as %s but stored as labels=%s distances=%s' % (
-                                   names, av.id, dv.id))
-        return False, 'labels and distances for mask %s come from different computations' % m
-    return False, 'unrecognised source pair (%s, %s) for mask %s' % (u(av), u(dv), m)
+                    data = arg_or_kw(call, 0, 'trajectory')
+                    ctrs = arg_or_kw(call, 1, 'cluster_centers')
+                    if data is None or ctrs is None:
+                        return 'unknown', 'arguments of %s not recognised' % u(call)[:80], None
+                    dx = canon(fi.expand(data, strict=False))
+                    if not (isinstance(dx, ast.Subscript) and u(dx.value) == ro['X']):
+                        return 'unknown', 'frames recomputed by %s not recognised' % u(call)[:80], None
+                    if u(dx.slice) != key:
+                        return 'bad', ('ambiguous frames are recomputed for %s but stored '
+                                       'under mask %s' % (u(data), m)), None
+                    if isinstance(ctrs, ast.Name) and ctrs.id == ro['Cc']:
+                        return 'bad', ('ambiguous frames are assigned against the CURRENT centre list `%s`, not the '
+                                       'candidate list `%s` that contains the proposal' % (ro['Cc'], ro['N'])), None
+                    if not (isinstance(ctrs, ast.Name) and ctrs.id == ro['N']):
+                        return 'unknown', 'centre list `%s` of the ambiguity sweep not recognised' % u(ctrs)[:60], None
+                    return 'ok', ('(labels, distances) unpacked in order from one '
+                                  'assign_to_nearest_center(%s, %s) call' % (u(data), u(ctrs))), None
+                if names == [dv.id, av.id]:
+                    return 'bad', ('assign_to_nearest_center returns (assignments, distances); '
+                                   'unpacked as %s but stored as labels=%s distances=%s' % (
+                                       names, av.id, dv.id)), None
+                return 'bad', ('labels=%s / distances=%s are not the pair unpacked from %s' % (
+                    av.id, dv.id, u(site)[:80])), None
+            return 'unknown', 'common definition of %s/%s not recognised: %s' % (av.id, dv.id, u(site)[:80]), None
+        sa = {_last(call_name(s.value)) for s in da if isinstance(s, ast.Assign) and isinstance(s.value, ast.Call)}
+        sd = {_last(call_name(s.value)) for s in dd if isinstance(s, ast.Assign) and isinstance(s.value, ast.Call)}
+        if sa == sd == {'assign_to_nearest_center'}:
+            return 'bad', 'labels and distances for mask %s come from different computations' % m, None
+        return 'unknown', 'sources (%s, %s) for mask %s not recognised' % (av.id, dv.id, m), None
+    return 'unknown', 'unrecognised source pair (%s, %s) for mask %s' % (u(av), u(dv), m), None
 
 
-def d3_pam_case_a(ck):
-    """The 'closer to proposal' mask compares current distances with the
-    distances to the proposal, the label written is the loop centre id and the
-    candidate centre list passed to the ambiguity sweep has the proposal at
-    that id."""
+def d3_pam_case_a(ck, mod, fn, fi, ro, srcs):
+    """The candidate distances compared by the 'closer to proposal' mask are
+    metric(X, proposal), the per-centre loop visits every centre, and the
+    candidate centre list passed to the ambiguity sweep is a COPY of the
+    current list with the proposal at that id."""
     rule = 'C01.D3.pam.atoms'
-    mod = ck.repo.mod(KM)
-    fn = mod.func('_kmedoids_pam_update')
-    fi = finfo(mod, fn)
-    # loop variable
-    loops = [l for l in walk_local(fn) if isinstance(l, ast.For)
-             and any(isinstance(x, ast.Subscript) and u(x.value) == 'new_assig'
-                     for x in walk_local(l))]
-    if not loops:
-        ck.missing(rule, 'per-centre loop not found')
+    F = '_kmedoids_pam_update'
+    loop, cid = ro['loop'], ro['cid']
+    I, Cc, N, X, metric = ro['I'], ro['Cc'], ro['N'], ro['X'], ro['metric']
+    forms = ['range(len(%s))' % I, 'range(0, len(%s))' % I, 'range(len(%s))' % Cc, 'range(0, len(%s))' % Cc]
+    v = classify(fi.expand(loop.iter), forms, scope={I, Cc})
+    ck.decide(v, rule, mod, loop, F, 'for %s in %s' % (cid, u(loop.iter)),
+              'one update per current centre', 'per-centre loop must range over len(%s)' % I)
+    # the proposal: what is stored at N[cid]
+    props = [s.value for s, t in subscript_stores(loop, N) if isinstance(s, ast.Assign)]
+    srcs = sorted(set(srcs))
+    if len(srcs) != 1:
+        ck.missing(rule, 'candidate-distance array of the nearer-to-proposal case not identified')
+    else:
+        SRC = srcs[0]
+        defs = [s for s in assigns_to(loop, SRC) if isinstance(s, ast.Assign)]
+        if len(defs) != 1 or fi.def_value(defs[0], SRC) is None:
+            ck.missing(rule, 'single definition of the candidate distances `%s` in the per-centre loop not found' % SRC)
+        else:
+            val = fi.def_value(defs[0], SRC)
+            if isinstance(val, ast.Call) and isinstance(val.func, ast.Name) and val.func.id == metric:
+                a0 = arg_or_kw(val, 0, None)
+                a1 = arg_or_kw(val, 1, None)
+                ok = len(val.args) == 2 and not val.keywords and u(a0) == X and len(props) == 1 and \
+                    isinstance(a1, ast.Name) and isinstance(props[0], ast.Name) and a1.id == props[0].id and \
+                    fi.defs_of_use(a1) == fi.defs_of_use(props[0])
+                ck.check(ok, rule, mod, defs[0], F, u(defs[0]),
+                         'candidate distances = metric(X, proposed centre)',
+                         'candidate distances must be %s(%s, <the proposed centre stored at %s[%s]>)' % (metric, X, N, cid))
+            else:
+                ck.missing(rule, 'definition of the candidate distances is not a call of the metric parameter: %s' % u(defs[0])[:100])
+    # N = Cc.copy()
+    nm = [s for s in assigns_to(loop, N) if isinstance(s, ast.Assign)]
+    if len(nm) != 1 or fi.def_value(nm[0], N) is None:
+        ck.missing('C01.D3.pam.candidate-copy', 'single definition of the candidate centre list `%s` not found' % N)
         return
-    loop = loops[-1]
-    cid = u(loop.target)
-    ok_range = isinstance(loop.iter, ast.Call) and call_name(loop.iter) == 'range' and \
-        u(loop.iter.args[-1]) == 'len(medoid_inds)' if isinstance(loop.iter, ast.Call) else False
-    ck.check(ok_range, rule, mod, loop, '_kmedoids_pam_update',
-             'for %s in %s' % (cid, u(loop.iter)),
-             'one update per current centre', 'per-centre loop must range over len(medoid_inds)')
-    # new_ctr_dist = metric(X, proposed_center)
-    defs = [s for s in assigns_to(loop, 'new_ctr_dist') if isinstance(s, ast.Assign)]
-    X = params(fn)[0]
-    ok = len(defs) == 1 and isinstance(defs[0].value, ast.Call) and \
-        u(defs[0].value.func) == params(fn)[1] and len(defs[0].value.args) == 2 and \
-        u(defs[0].value.args[0]) == X and u(defs[0].value.args[1]) == 'proposed_center'
-    ck.check(ok, rule, mod, defs[0] if defs else loop, '_kmedoids_pam_update',
-             u(defs[0]) if defs else 'new_ctr_dist',
-             'candidate distances = metric(X, proposed centre)',
-             'candidate distances must be metric(%s, proposed_center)' % X)
-    # new_medoids[cid] = proposed_center, new_medoids = medoid_coords.copy()
-    nm = [s for s in assigns_to(loop, 'new_medoids') if isinstance(s, ast.Assign)]
-    okc = len(nm) == 1 and isinstance(nm[0].value, ast.Call) and \
-        u(nm[0].value) in ('medoid_coords.copy()', 'list(medoid_coords)', 'copy.copy(medoid_coords)', 'medoid_coords[:]')
-    ck.check(okc, 'C01.D3.pam.candidate-copy', mod, nm[0] if nm else loop,
-             '_kmedoids_pam_update', u(nm[0]) if nm else 'new_medoids',
-             'candidate centre list is a fresh copy of the current one',
-             'the candidate centre list must be a COPY of medoid_coords: if it aliases '
-             'the current list, `new_medoids[cid] = proposed_center` commits the '
-             'proposal before the accept/reject decision')
+    copies = ['%s.copy()' % Cc, 'list(%s)' % Cc, 'copy.copy(%s)' % Cc, '%s[:]' % Cc,
+              'copy.deepcopy(%s)' % Cc, '[_E for _E in %s]' % Cc, '%s + []' % Cc, '[*%s]' % Cc]
+    v = classify(fi.def_value(nm[0], N), copies, scope={Cc})
+    ck.decide(v, 'C01.D3.pam.candidate-copy', mod, nm[0], F, u(nm[0]),
+              'candidate centre list is a fresh copy of the current one',
+              'the candidate centre list must be a COPY of %s: if it aliases '
+              'the current list, `%s[%s] = <proposal>` commits the '
+              'proposal before the accept/reject decision' % (Cc, N, cid))
+
+
+# ---------------------------------------------------------------------------
+# D4
+
+_ROLE_TOKENS = {'center_indices': ('center_ind', 'ctr_ind', 'medoid_ind', 'pred_centers', 'cluster_center_inds', 'int_indcs', 'center_indices'),
+                'assignments': ('assig', 'assignments'),
+                'distances': ('dist',),
+                'centers': ('centers', 'medoid_coords', 'centers_')}
+
+
+def _roles_of_text(txt):
+    return {f for f, toks in _ROLE_TOKENS.items() if any(t in txt for t in toks)}
+
+
+def _role_verdict(fi, field, v):
+    """Role typing of a value passed as ClusterResult(<field>=v): by the
+    vocabulary of its text, then of what it is computed from.  -> ok/bad/unknown"""
+    texts = [u(v)]
+    try:
+        texts.append(u(fi.expand(v)))
+        ps, calls = fi.derives_from(v)
+        texts.append(' '.join(sorted(ps)) + ' ' + ' '.join(sorted(calls)))
+    except Exception:
+        pass
+    for t in texts:
+        roles = _roles_of_text(t)
+        if roles:
+            # the most direct description that carries a role decides
+            return 'ok' if field in roles else 'bad'
+    return 'unknown'
 
 
 def d4_result_fields(ck):
     rule = 'C01.D4.result'
-    res, ea = shared(ck.repo)
     n = 0
     fields = None
     modu = ck.repo.mod(CU)
@@ -415,46 +1170,54 @@ def d4_result_fields(ck):
     if cls is None:
         raise AnalysisIncomplete('ClusterResult class not found')
     for b in cls.bases:
-        if isinstance(b, ast.Call) and call_name(b) == 'namedtuple' and len(b.args) == 2 \
-                and isinstance(b.args[1], ast.List):
-            fields = [e.value for e in b.args[1].elts]
+        if isinstance(b, ast.Call) and _last(call_name(b)) == 'namedtuple' and len(b.args) == 2 \
+                and isinstance(b.args[1], (ast.List, ast.Tuple)):
+            fields = [e.value for e in b.args[1].elts if isinstance(e, ast.Constant)]
     if fields is None:
         raise AnalysisIncomplete('ClusterResult namedtuple field list not found')
     ck.check(set(fields) == {'center_indices', 'distances', 'assignments', 'centers'},
              rule, modu, cls, 'ClusterResult', str(fields), 'four fields', 'unexpected field set')
-    expected_role = {'center_indices': ('center_ind', 'ctr_ind', 'medoid_ind', 'pred_centers', 'cluster_center_inds', 'int_indcs', 'center_indices'),
-                     'assignments': ('assig', 'assignments'),
-                     'distances': ('dist',),
-                     'centers': ('centers', 'medoid_coords', 'centers_')}
-    for rel in (KC, KM, HY, CU, 'enspara/apps/cluster.py'):
+    producers = {(KC, 'kcenters'), (KM, '_kmedoids_iterations'), (HY, 'hybrid'),
+                 (CU, 'MolecularClusterMixin.predict'), (CU, 'ClusterResult.partition'), (AP, 'main')}
+    found = set()
+    for rel in (KC, KM, HY, CU, AP):
         mod = ck.repo.mod(rel)
         for q, fn in mod.functions.items():
             for c in calls_in(fn):
-                cn = call_name(c) or ''
-                if cn.split('.')[-1] != 'ClusterResult':
+                if _last(call_name(c)) != 'ClusterResult':
                     continue
                 n += 1
+                found.add((rel, q))
                 ck.analysed(mod, fn)
+                fi = finfo(mod, fn)
                 if c.args:
                     ck.bad(rule, mod, c, q, u(c)[:160],
                            'ClusterResult must be built with keywords: positional '
                            'construction depends on the field order %s' % fields)
                     continue
+                if any(k.arg is None for k in c.keywords):
+                    ck.missing(rule, '%s: ClusterResult(**...) cannot be role-checked' % q)
+                    continue
                 kws = {k.arg: k.value for k in c.keywords}
                 ok = set(kws) == set(fields)
-                bad_roles = []
+                bad_roles, unknown = [], []
                 for f, v in kws.items():
-                    txt = u(v)
-                    leaf = txt.split('(')[-1] if False else txt
-                    toks = expected_role.get(f, ())
-                    if not any(t in leaf for t in toks):
-                        bad_roles.append('%s=%s' % (f, txt[:40]))
+                    r = _role_verdict(fi, f, v) if f in _ROLE_TOKENS else 'bad'
+                    if r == 'bad':
+                        bad_roles.append('%s=%s' % (f, u(v)[:40]))
+                    elif r == 'unknown':
+                        unknown.append('%s=%s' % (f, u(v)[:40]))
+                if ok and not bad_roles and unknown:
+                    ck.missing(rule, '%s: role of %s cannot be derived' % (q, unknown))
+                    continue
                 ck.check(ok and not bad_roles, rule, mod, c, q, u(c)[:200],
                          'all four fields passed by keyword with role-consistent values',
                          'field/value role mismatch: %s' % (bad_roles or sorted(set(fields) ^ set(kws))))
-    ck.floor(rule, n, 8, 'ClusterResult constructions')
+    # every producer of a result builds it by keyword (at least once each)
+    for rel, q in sorted(producers - found):
+        ck.missing(rule, 'no ClusterResult(...) construction found in %s::%s' % (rel, q))
+    ck.floor(rule, n, len(producers), 'ClusterResult constructions')
     # estimator properties
-    mix = modu.classes.get('MolecularClusterMixin')
     want = {'labels_': 'assignments', 'distances_': 'distances',
             'center_indices_': 'center_indices', 'centers_': 'centers'}
     for prop, field in want.items():
@@ -462,11 +1225,20 @@ def d4_result_fields(ck):
         if fn is None:
             ck.missing(rule, 'property %s missing' % prop)
             continue
+        fi = finfo(modu, fn)
         r = returns_of(fn)
-        ok = len(r) == 1 and u(r[0].value) == 'self.result_.%s' % field
-        ck.check(ok, rule + '.props', modu, fn, 'MolecularClusterMixin.' + prop,
-                 u(r[0]) if r else prop, '%s -> result_.%s' % (prop, field),
-                 'estimator attribute %s must expose result_.%s' % (prop, field))
+        if len(r) != 1 or r[0].value is None:
+            ck.missing(rule + '.props', 'property %s: single return not found' % prop)
+            continue
+        txt = fi.xu(r[0].value)
+        v = classify(fi.expand(r[0].value), ['self.result_.%s' % field], scope={'self'})
+        if v[0] != 'match' and not txt.startswith('self.result_.'):
+            v = ('far', v[1], v[2])
+        elif v[0] != 'match':
+            v = ('near', v[1], v[2])
+        ck.decide(v, rule + '.props', modu, fn, 'MolecularClusterMixin.' + prop,
+                  u(r[0]), '%s -> result_.%s' % (prop, field),
+                  'estimator attribute %s must expose result_.%s' % (prop, field))
     # unpacking order of assign_to_nearest_center at call sites
     n2 = 0
     for rel in (KC, KM, HY, CU):
@@ -474,26 +1246,75 @@ def d4_result_fields(ck):
         for q, fn in mod.functions.items():
             for s in walk_local(fn):
                 if isinstance(s, ast.Assign) and isinstance(s.value, ast.Call) and \
-                        (call_name(s.value) or '').endswith('assign_to_nearest_center') and \
+                        _last(call_name(s.value)) == 'assign_to_nearest_center' and \
                         isinstance(s.targets[0], ast.Tuple) and len(s.targets[0].elts) == 2:
                     a, d = [u(e) for e in s.targets[0].elts]
                     n2 += 1
-                    ok = 'assig' in a and 'dist' in d
-                    ck.check(ok, rule + '.unpack', mod, s, q, u(s)[:160],
-                             '(assignments, distances) order respected',
-                             'assign_to_nearest_center returns (assignments, distances); '
-                             'unpacked into (%s, %s)' % (a, d))
+                    ra, rd = _roles_of_text(a), _roles_of_text(d)
+                    if 'assignments' in ra and 'distances' in rd:
+                        ck.ok(rule + '.unpack', mod, s, u(s)[:160], '(assignments, distances) order respected')
+                    elif 'distances' in ra or 'assignments' in rd:
+                        ck.bad(rule + '.unpack', mod, s, q, u(s)[:160],
+                               'assign_to_nearest_center returns (assignments, distances); '
+                               'unpacked into (%s, %s)' % (a, d))
+                    else:
+                        verdict = _unpack_by_use(mod, fn, finfo(mod, fn), s)
+                        if verdict == 'ok':
+                            ck.ok(rule + '.unpack', mod, s, u(s)[:160], '(labels, distances) order respected (by use)')
+                        elif verdict == 'bad':
+                            ck.bad(rule + '.unpack', mod, s, q, u(s)[:160],
+                                   'assign_to_nearest_center returns (assignments, distances); '
+                                   'unpacked into (%s, %s) whose uses are the other way round' % (a, d))
+                        else:
+                            ck.missing(rule + '.unpack', '%s: roles of (%s, %s) cannot be derived' % (q, a, d))
     ck.floor(rule + '.unpack', n2, 5, 'unpackings of assign_to_nearest_center')
-    # return order of assign_to_nearest_center itself
-    fna = modu.func('assign_to_nearest_center')
-    for r in returns_of(fna):
-        ok = isinstance(r.value, ast.Tuple) and [u(e) for e in r.value.elts] == ['assignments', 'distances']
-        ck.check(ok, rule + '.unpack', modu, r, 'assign_to_nearest_center', u(r),
-                 'returns (assignments, distances)', 'return order changed')
+    # return order of assign_to_nearest_center itself: (label array, running-minimum array)
+    F = 'assign_to_nearest_center'
+    fna = modu.func(F)
+    fia = finfo(modu, fna)
+    inst = find_running_min_commits(modu, fna)
+    lab = cur = None
+    for i in inst:
+        cur = i['cur']
+        for st, t in i['stores']:
+            if u(t.value) != cur:
+                lab = u(t.value)
+    if lab is None or cur is None:
+        ck.missing(rule + '.unpack', '%s: label / running-minimum arrays not identified' % F)
+        return
+    for r, elts in _ret_tuples(fia, fna, 2):
+        if elts is None:
+            ck.missing(rule + '.unpack', '%s: returned value is not a tuple display' % F)
+            continue
+        ok = bool(elts) and [u(e) for e in elts] == [lab, cur]
+        ck.check(ok, rule + '.unpack', modu, r, F, u(r),
+                 'returns (labels, distances)', 'return order changed: must be (%s, %s)' % (lab, cur))
+
+
+def _unpack_by_use(mod, fn, fi, s):
+    """Roles of an (a, d) unpacking by what the two names are passed as."""
+    a, d = [e.id if isinstance(e, ast.Name) else None for e in s.targets[0].elts]
+    if a is None or d is None:
+        return 'unknown'
+    votes = set()
+    for c in calls_in(fn):
+        for k in c.keywords:
+            if isinstance(k.value, ast.Name) and k.arg in ('assignments', 'distances') and k.value.id in (a, d):
+                if s in fi.defs_of_use(k.value):
+                    votes.add('ok' if (k.arg == 'assignments') == (k.value.id == a) else 'bad')
+        if _last(call_name(c)) == 'find_cluster_centers' and len(c.args) == 2 and \
+                all(isinstance(x, ast.Name) for x in c.args) and {c.args[0].id, c.args[1].id} == {a, d}:
+            votes.add('ok' if c.args[0].id == a else 'bad')
+    if votes == {'ok'}:
+        return 'ok'
+    if votes == {'bad'}:
+        return 'bad'
+    return 'unknown'
 
 
 def check(ck):
     d1_lockstep(ck)
+    d1_warmstart(ck)
     d1_propose(ck)
     kc = ck.repo.mod(KC)
     n = check_running_min_commit(ck, 'C01.D2.commit', kc, '_kcenters_iteration',
@@ -505,8 +1326,8 @@ def check(ck):
                                   False, 'enumerate-index')
     ck.floor('C01.D2.commit', n, 3, 'running-minimum commits')
     d2_argmin_branch(ck)
+    d2_shortcut_optin(ck)
     d3_pam_three_way(ck)
-    d3_pam_case_a(ck)
     d4_result_fields(ck)
     entries = [(KC, 'kcenters'), (KC, 'kcenters_mpi'), (KM, 'kmedoids'),
                (HY, 'hybrid'), (CU, 'assign_to_nearest_center'),
@@ -517,43 +1338,3 @@ def check(ck):
                (KM, '_kmedoids_inputs_tree'), (KM, '_propose_new_center_amongst')]
     check_no_arg_mutation(ck, 'C01.D5.inputs-unmodified', entries)
     return EXPLANATION
-
-
-def d2_argmin_branch(ck):
-    rule = 'C01.D2.argmin-branch'
-    mod = ck.repo.mod(CU)
-    fn = mod.func('assign_to_nearest_center')
-    n = 0
-    for loop in [l for l in walk_local(fn) if isinstance(l, ast.For)]:
-        am = [s for s in walk_local(loop) if isinstance(s, ast.Assign)
-              and isinstance(s.value, ast.Call) and call_name(s.value) in ('np.argmin',) ]
-        mn = [s for s in walk_local(loop) if isinstance(s, ast.Assign)
-              and isinstance(s.value, ast.Call) and call_name(s.value) in ('np.min', 'np.amin')]
-        am += [s for s in walk_local(loop) if isinstance(s, ast.Assign)
-               and isinstance(s.value, ast.Call) and isinstance(s.value.func, ast.Attribute)
-               and s.value.func.attr == 'argmin' and call_name(s.value) != 'np.argmin']
-        mn += [s for s in walk_local(loop) if isinstance(s, ast.Assign)
-               and isinstance(s.value, ast.Call) and isinstance(s.value.func, ast.Attribute)
-               and s.value.func.attr == 'min' and call_name(s.value) != 'np.min']
-        if not am and not mn:
-            continue
-        n += 1
-        if len(am) != 1 or len(mn) != 1:
-            ck.bad(rule, mod, loop, 'assign_to_nearest_center', u(loop)[:120],
-                   'per-frame branch must store both argmin (label) and min (distance)')
-            continue
-        a, m = am[0], mn[0]
-
-        def operand(c):
-            return u(c.args[0]) if c.args else u(c.func.value)
-        same = operand(a.value) == operand(m.value)
-        ta, tm = a.targets[0], m.targets[0]
-        same_cell = isinstance(ta, ast.Subscript) and isinstance(tm, ast.Subscript) \
-            and u(ta.slice) == u(tm.slice) and u(ta.value) == 'assignments' \
-            and u(tm.value) == 'distances'
-        ck.check(same and same_cell, rule, mod, a, 'assign_to_nearest_center',
-                 '%s ; %s' % (u(a), u(m)),
-                 'label = argmin and distance = min of the same distance vector, same frame',
-                 'argmin and min must be taken over the same array and stored at the '
-                 'same frame index into assignments resp. distances')
-    ck.floor(rule, n, 1, 'argmin/min branch')
